@@ -10,7 +10,7 @@
    the child's status and bytes is call_post. *)
 From Coq Require Import List NArith ZArith Bool.
 Import ListNotations.
-From Cffi Require Import C35.PyStr C35.Model C35.Spec C35.Gen C35.Proofs.
+From Cffi Require Import C35.PyStr C35.Model C35.Spec C35.Gen C35.Proofs C35.Proofs2.
 Open Scope N_scope.
 
 (* str.split() is the tokenisation into maximal whitespace-free runs, and nothing else is *)
@@ -92,6 +92,55 @@ Theorem C35_call : forall decode alt sp,
   (forall e, call_post decode alt sp = Err e -> e = PkgConfigError).
 Proof. intros. split; [intros; apply call_post_ok_iff | intros; eapply call_post_error; eauto]. Qed.
 Print Assumptions C35_call.
+
+(* ---- end to end: the real call() = call_post (regenerated) applied to the child spawned with call_argv
+   (regenerated), inside the regenerated flags_from_pkgconfig.  spawn (argv -> None | (status, stdout)) and decode
+   (bytes -> str option) are arbitrary: the statements hold for every pkg-config and every codec. *)
+
+(* whatever pkg-config does, flags_from_pkgconfig raises nothing but PkgConfigError: discharges the hypothesis of
+   C35_failure_raises part 2 for the real call *)
+Theorem C35_end_to_end_errors : forall spawn decode alt libs e,
+  flags_from_pkgconfig (real_call spawn decode alt) libs = Err e -> e = PkgConfigError.
+Proof. exact end_to_end_errors. Qed.
+Print Assumptions C35_end_to_end_errors.
+
+(* every run good (started, status 0, decodable to text lib s, no backslash outside Windows): the result routes the
+   tokens of those texts, in call order *)
+Theorem C35_end_to_end_ok : forall spawn decode alt libs (text : str -> stream -> str),
+  (forall lib s, In lib libs -> good_run spawn decode alt lib s (text lib s)) ->
+  exists r, flags_from_pkgconfig (real_call spawn decode alt) libs = Ok r /\
+    forall k, selected (fun t => token_kw (kw_stream k) t k) (stored k)
+                (concat (map (fun lib => py_split (text lib (kw_stream k))) libs))
+                (lists_of r (kw_name k)).
+Proof. exact end_to_end_ok. Qed.
+Print Assumptions C35_end_to_end_ok.
+
+(* "a failing or undecodable pkg-config run raises PkgConfigError": one run of one listed package that is not good
+   (cannot be started / non-zero status / undecodable / backslash) makes the whole call raise PkgConfigError *)
+Theorem C35_end_to_end_failure : forall spawn decode alt libs lib s,
+  In lib libs -> (forall t, ~ good_run spawn decode alt lib s t) ->
+  flags_from_pkgconfig (real_call spawn decode alt) libs = Err PkgConfigError.
+Proof. exact end_to_end_failure. Qed.
+Print Assumptions C35_end_to_end_failure.
+
+(* the key set of the result: {} for no package; otherwise exactly the six keywords, each once, each a list *)
+Theorem C35_result_keys : forall call libs r, flags_from_pkgconfig call libs = Ok r ->
+  wf_cfg r /\ all_lists r /\
+  (libs = [] -> r = []) /\
+  (libs <> [] -> forall k, dict_in k r = true <-> exists kw, k = kw_name kw).
+Proof. exact result_keys. Qed.
+Print Assumptions C35_result_keys.
+
+(* non-vacuity of good_run / real_call: a pkg-config that prints "-Ia" for --cflags and "-lz" for --libs *)
+Example C35_example_end_to_end :
+  let spawn := fun argv : list str => match argv with
+                 | [_; _; flag; _] => if str_eqb flag (stream_flag Cflags) then Some (0%Z, [45;73;97]) else Some (0%Z, [45;108;122])
+                 | _ => None end in
+  flags_from_pkgconfig (real_call spawn (fun b => Some b) false) [[120]] =
+  Ok [(kw_name IncludeDirs, VL [FStr [97]]); (kw_name LibraryDirs, VL []); (kw_name Libraries, VL [FStr [122]]);
+      (kw_name DefineMacros, VL []); (kw_name ExtraCompileArgs, VL []); (kw_name ExtraLinkArgs, VL [])] /\
+  flags_from_pkgconfig (real_call (fun _ => Some (1%Z, [])) (fun b => Some b) false) [[120]] = Err PkgConfigError.
+Proof. vm_compute. split; reflexivity. Qed.
 
 (* non-vacuity: two packages; "-I/a -DX=1=2 -DY -O2 -Ifoo" and "-L/l -lm -pthread" / "-Wall" and "-lz" *)
 Example C35_example :
